@@ -187,19 +187,64 @@ def _worker(args):
                     solver_time=0.0, queries=0, wall=0.0, hashes={}, conformance=0, bounded=None)
 
 
+def _crashed(u, why):
+    return dict(name=u.name, functions=list(u.functions), trusted=[], uses=[], obligations=[], paths=0, undecided=[],
+                errors=[why], notes=[], functions_seen={}, solver_time=0.0, queries=0, wall=0.0, hashes={},
+                conformance=0, bounded=None)
+
+
+def _run_subprocesses(pid, tier, seed, only, units, jobs):
+    """One worker PROCESS per unit (fresh interpreter, fresh z3 context), at most `jobs` at a time.  Workers write their
+    summary as JSON and leave with os._exit, so that neither fork-time locks nor z3 finalisers can hang the check."""
+    import subprocess
+    import tempfile
+    tmp = tempfile.mkdtemp(prefix='verif-units-')
+    limit = 900 if tier == 'quick' else 7200
+    pending = list(range(len(units)))
+    running = {}
+    results = [None] * len(units)
+    env = dict(os.environ)
+    try:
+        while pending or running:
+            while pending and len(running) < jobs:
+                i = pending.pop(0)
+                out = os.path.join(tmp, '%d.json' % i)
+                cmd = [sys.executable, '-m', 'pyvc.driver', pid, '--tier', tier, '--worker', str(i), '--out', out]
+                if only:
+                    cmd += ['--only', only]
+                running[i] = (subprocess.Popen(cmd, env=env, cwd=ROOT, stdout=subprocess.DEVNULL, stderr=subprocess.PIPE),
+                              out, time.time())
+            for i, (proc, out, t0) in list(running.items()):
+                rc = proc.poll()
+                if rc is None:
+                    if time.time() - t0 > limit:
+                        proc.kill()
+                        results[i] = _crashed(units[i], 'worker exceeded %d s and was killed' % limit)
+                        del running[i]
+                    continue
+                del running[i]
+                try:
+                    with open(out) as f:
+                        results[i] = json.load(f)
+                except Exception as e:
+                    err = (proc.stderr.read() or b'').decode('utf-8', 'replace')[-1500:]
+                    results[i] = _crashed(units[i], 'worker exit %r without a result: %s\n%s' % (rc, e, err))
+            time.sleep(0.02)
+    finally:
+        import shutil
+        shutil.rmtree(tmp, ignore_errors=True)
+    return results
+
+
 def run_property(pid, tier='quick', seed=0, only=None, jobs=None):
     t0 = time.time()
     mod, units = _select_units(pid, tier, only)
     known = [k for k in load_known_findings().get('known', []) if k['property'] == pid]
     jobs = jobs or int(os.environ.get('VERIF_JOBS', '0') or 0) or min(12, os.cpu_count() or 1)
-    tasks = [(pid, tier, seed, only, i) for i in range(len(units))]
     if jobs > 1 and len(units) > 1:
-        import multiprocessing
-        ctx = multiprocessing.get_context('fork')
-        with ctx.Pool(processes=min(jobs, len(units))) as pool:
-            results = pool.map(_worker, tasks, chunksize=1)
+        results = _run_subprocesses(pid, tier, seed, only, units, jobs)
     else:
-        results = [_worker(t) for t in tasks]
+        results = [_worker((pid, tier, seed, only, i)) for i in range(len(units))]
 
     violations = []          # (unit name, functions, obligation dict or None, replay, witness)
     known_hits = []
@@ -366,8 +411,15 @@ def main(argv=None):
     ap.add_argument('--tier', default=os.environ.get('VERIF_TIER', 'quick'))
     ap.add_argument('--only', default=None)
     ap.add_argument('--replay', default=None)
+    ap.add_argument('--worker', type=int, default=None)
+    ap.add_argument('--out', default=None)
     a = ap.parse_args(argv)
     seed = int(os.environ.get('VERIF_SEED', '0') or 0)
+    if a.worker is not None:
+        res = _worker((a.property, a.tier, seed, a.only, a.worker))
+        with open(a.out, 'w') as f:
+            json.dump(res, f, default=repr)
+        return 0
     if a.replay:
         with open(a.replay) as f:
             doc = json.load(f)
@@ -377,4 +429,7 @@ def main(argv=None):
 
 
 if __name__ == '__main__':
-    sys.exit(main())
+    rc = main()
+    sys.stdout.flush()
+    sys.stderr.flush()
+    os._exit(rc)        # skip interpreter finalisation: z3 finalisers can hang at shutdown
